@@ -312,6 +312,33 @@ def secondServerHello (f : Fixed) (hrrSuite : Nat) (sh2 : SH) (isHRR : Bool) : O
   | some o => some o
   | none => if isHRR then some (.abort alertUnexpectedMessage "two-hrr") else none
 
+/-! ## which private key the key exchange uses after the retry -/
+
+/-- `keySharePrivateKeys` as far as the classical groups go: `curveID`/`ecdhe` (the single classical
+key) and the per-group map `ecdheKeys` that `ApplyPreset` fills and deliberately keeps across calls
+(`UConn.HandshakeState.State13.KeyShareKeys` shares it). A private key is identified with the public
+share it backs. -/
+structure KeySet where
+  curveID : Nat
+  ecdhe : Option Bytes
+  ecdheKeys : List (Nat × Bytes)
+  deriving DecidableEq, Repr
+
+/-- `(*keySharePrivateKeys).ecdheKeyFor(group)` for a classical group: the map entry if there is one,
+otherwise `ecdhe`; `nil` for a nil set. -/
+def ecdheKeyFor (ks : Option KeySet) (g : Nat) : Option Bytes :=
+  match ks with
+  | none => none
+  | some k =>
+    match k.ecdheKeys.lookup g with
+    | some key => some key
+    | none => k.ecdhe
+
+/-- `hs.keyShareKeys = &keySharePrivateKeys{curveID: curveID, ecdhe: key}` — a **new** set replaces
+whatever was there (nothing happens when the HelloRetryRequest selects no group). -/
+def keysAfterHRR (old : Option KeySet) (h : SH) (fresh : Bytes) : Option KeySet :=
+  if h.group = 0 then old else some ⟨h.group, some fresh, []⟩
+
 /-! ## vocabulary of the property statements -/
 
 /-- the cookie the uTLS section echoes (`len(hs.serverHello.cookie) > 0`). -/
